@@ -49,11 +49,11 @@ def bpf_alu_(obj, s, jt, jf, k):
 @ispec("64>[ 101 s 1100 {00} ~jt(8) ~jf(8) ~k(32) ]", mnemonic="jge")
 @ispec("64>[ 101 s 0010 {00} ~jt(8) ~jf(8) ~k(32) ]", mnemonic="jset")
 def bpf_jmp_(obj, s, jt, jf, k):
-    tst = env.cst(k.int(-1), 32)
-    tst.sf = True
-    offjt = env.cst(jt.int(-1), 64)
-    offjf = env.cst(jf.int(-1), 64)
-    obj.operands = [tst, offjt, offjf]
+    # A is compared with K or X; jt/jf are unsigned instruction counts
+    src = env.cst(k.int(), 32) if s == 0 else env.X
+    offjt = env.cst(jt.int(), 64)
+    offjf = env.cst(jf.int(), 64)
+    obj.operands = [src, offjt, offjf]
     obj.type = type_control_flow
 
 
